@@ -6,11 +6,18 @@ Correspondence: kernel scopes declarations, propagation, completion, startup (th
 (`P/Skip.lean`) against the real `Executor.try_skip_job` / `validate_dynamic_job` driven on
 constructed workflows.
 
-Oracle (the property itself, on the real director code through `simdirector`): generated
-histories (edits of sources, plans that drop / re-add unchanged / redefine steps, a dropped and
-re-added sub-plan, environment changes, a source that disappears and comes back; restarts and
-watch-mode rebuilds; 1-3 jobs, random schedules).  After the last build the database and the
-tree are compared with a build from an empty database of a copy of the final sources.
+Oracle (the property itself, on the real director code through `simdirector`), three families:
+ 1. generated histories of projgen projects (edits of sources, plans that drop / re-add unchanged /
+    redefine steps, a dropped and re-added sub-plan, environment changes including a variable that
+    goes back to an earlier value, a source that disappears and comes back while other sources
+    change; restarts and watch-mode rebuilds; 1-3 jobs, random schedules);
+ 2. trees of plans (nested and sibling sub-plans whose steps depend on each other across plans, an
+    optional producer needed only by a consumer two plan levels down): a plan file is touched, a
+    child plan dropped or re-added, a source edited, a step made optional;
+ 3. redefinitions: one step is redefined with exactly one of shell / env_overrides / resources /
+    need changed.
+After the last build the database and the tree are compared with a build from an empty database of
+a copy of the final sources.
 
 Scope of the comparison ("same active steps, files, states and relations"): every *attached*
 node with its state, need (declared and implied), environment variables, glob patterns,
@@ -276,7 +283,7 @@ def run_case(ctx, index: int, *, salt="hist"):
 def _reverted_env(hist) -> frozenset:
     """Variables that took a value again which they had before a different one."""
     out = set()
-    for name in buildkit.projgen.ENV_NAMES if hasattr(buildkit, "projgen") else ("SIM_A", "SIM_B"):
+    for name in projgen.ENV_NAMES:
         values = [m.env.get(name) for m in hist.models]
         compact = [v for i, v in enumerate(values) if i == 0 or v != values[i - 1]]
         if len(compact) != len(set(compact)):
@@ -367,6 +374,43 @@ def run_redef_case(ctx, index: int, *, salt="redef"):
     return found, case
 
 
+# ---------------------------------------------------------------------------------------------
+# Third family: trees of plans (nested and sibling sub-plans, dependencies across plans)
+# ---------------------------------------------------------------------------------------------
+
+
+def run_tree_case(ctx, index: int, *, salt="tree"):
+    r = ctx.rng(salt, index)
+    trees, events, mutations = buildkit.gen_tree_history(r)
+    seed = r.randrange(1 << 30)
+    results = projgen.run_history(trees[0].render(), events, seed=seed)
+    case = {"mutations": mutations, "events": buildkit.describe_events(events),
+            "plans": {p: info["parent"] for p, info in trees[0].plans.items()}}
+    found = []
+    bad = [x for x in results if x.status != "done"]
+    if bad:
+        found.append((f"director-{bad[0].status}", f"a build phase ended with status {bad[0].status}",
+                      {**case, "error": (bad[0].error or "")[-1200:]}))
+        return found, case
+    fresh = projgen.fresh_build(trees[-1].render(), seed=seed + 1, njob=2)
+    case["compared"] = fresh.ok
+    if not fresh.ok:
+        return found, case
+    last = results[-1]
+    if not last.ok:
+        found.append(("incremental-build-fails",
+                      f"the last build of the history ended with {last.returncode!r} while a build from scratch of "
+                      f"the same sources succeeds", {**case, "returncode": repr(last.returncode), "log": last.log[-5:],
+                                                     "warnings": [e[1] for e in last.events if e[0] == "WARNING"][:4]}))
+        return found, case
+    for sig, what, extra in compare(last, fresh):
+        if sig == "succeeded-step-digest-differs" and _ran_during_creator_rerun(results, last, extra["step"]):
+            found.append(("out-of-scope:step-digest-recorded-during-creator-rerun", extra["step"], {}))
+        else:
+            found.append((sig, what, {**case, **extra}))
+    return found, case
+
+
 def report(ctx, index, salt, found, hist):
     for sig, what, extra in found:
         if sig.startswith("out-of-scope:"):
@@ -391,7 +435,7 @@ async def search(ctx):
 
     t0 = time.time()
     broken_runs = 0
-    n = ctx.budget(240, 4000)
+    n = ctx.budget(160, 3000)
     st = ctx.stats
     for i in range(n):
         found, summary, hist = await asyncio.to_thread(run_case, ctx, i)
@@ -424,7 +468,26 @@ async def search(ctx):
         report(ctx, i, "hist", found, hist)
         if stop:
             break
-    for i in range(ctx.budget(24, 400)):
+    for i in range(ctx.budget(80, 1400)):
+        found, case = await asyncio.to_thread(run_tree_case, ctx, i)
+        st.case(("tree", tuple(case["mutations"]), tuple(sorted(case["plans"].items(), key=str))),
+                nontrivial=bool(case.get("compared")))
+        st.programs += 1
+        st.count("plan-tree-histories")
+        for m in case["mutations"]:
+            st.count("tree-mutation:" + m.split(":")[0])
+        if not case.get("compared"):
+            st.count("plan-tree-histories-not-compared")
+        for sig, what, extra in found:
+            if sig.startswith("out-of-scope:"):
+                st.count(sig)
+                continue
+            st.count("finding:" + sig)
+            ctx.finding(Finding(PID, sig, what, {
+                "case": {"verif_seed": ctx.seed, "salt": "tree", "index": i}, **extra,
+                "how": "props/c01.py run_tree_case(ctx, index): buildkit.gen_tree_history (nested and sibling "
+                       "plans), compared with a build from scratch of the final tree"}))
+    for i in range(ctx.budget(20, 400)):
         found, case = await asyncio.to_thread(run_redef_case, ctx, i)
         st.case(("redef", tuple(sorted((k, str(v)) for k, v in case.items()))))
         st.programs += 1
@@ -466,6 +529,8 @@ async def replay(ctx, detail):
     sig = detail.get("signature", "")
     if case.get("salt") == "redef":
         found, summary = await asyncio.to_thread(run_redef_case, ctx, int(case.get("index", 0)))
+    elif case.get("salt") == "tree":
+        found, summary = await asyncio.to_thread(run_tree_case, ctx, int(case.get("index", 0)))
     else:
         found, summary, hist = await asyncio.to_thread(run_case, ctx, int(case.get("index", 0)),
                                                        salt=case.get("salt", "hist"))
